@@ -177,6 +177,11 @@ class NumpyModel:
 
     def compare(self, st, op, a, b, node):
         if op in ("is", "is not"):
+            from .values import OptV
+            if isinstance(a, OptV) and b is NONE:
+                return a.is_none if op == "is" else mk_not(a.is_none)
+            if isinstance(b, OptV) and a is NONE:
+                return b.is_none if op == "is" else mk_not(b.is_none)
             an, bn = a is NONE, b is NONE
             if not (an or bn):
                 raise Unsupported("`is` between non-None values")
@@ -333,8 +338,10 @@ class NumpyModel:
                     full.append(p[2](next(it)))
             return a.get(*full)
 
-        all_full_slices = all(p[0] == "fix" or p[3] for p in plan)
-        return Arr(shape, get, a.kind, own=False, view_of=a, affine=affine)
+        res = Arr(shape, get, a.kind, own=False, view_of=a, affine=affine)
+        if a.rank == 1 and len(plan) == 1 and plan[0][0] == "map" and isinstance(keys[0], Slc):
+            res.slice_of = (a, plan[0][2](0))       # (base array, offset): res[i] == base[offset + i]
+        return res
 
     def mask_gather(self, st, a: Arr, mask: Arr, node):
         """a[mask] for 1-D a and boolean mask: order preserving sub-sequence (assumed NumPy contract)."""
